@@ -32,6 +32,7 @@ package l1infotreesync
 //@   ensures result == nil ==> *cast(dest[0], *uint64) == l1LastProcessed
 //@   ensures (result != nil && isErr(result, sql.ErrNoRows)) ==> l1LastProcessed == 0
 //@ func (p *processor) getLastProcessedBlockWithTx (p, tx)
+//@   threads tx
 //@   props C05 C15
 //@   requires tx != nil
 //@   sqltext "SELECT num FROM BLOCK ORDER BY num DESC LIMIT 1;"
@@ -58,6 +59,7 @@ package l1infotreesync
 //@   ensures result == nil ==> cast(dst, *L1InfoTreeLeaf).BlockNumber <= unbox(args[0], uint64)
 
 //@ func (p *processor) GetLatestInfoUntilBlock (p, ctx, blockNum)
+//@   threads tx
 //@   props C15
 //@   sqltext "SELECT * FROM l1info_leaf WHERE block_num <= $1 ORDER BY block_num DESC, block_pos DESC LIMIT 1;"
 //@   requires p != nil && p.db != nil && p.log != nil
@@ -88,6 +90,7 @@ package l1infotreesync
 // current leaf (read inside the open transaction, under the tree's last root) is ignored, anything else is written at
 // position rollupID-1 and recorded together with the resulting rollup exit root.
 //@ func (p *processor) isNewValueForRollupExitTree (p, tx, event)
+//@   threads tx
 //@   props C11
 //@   requires p != nil && p.rollupExitTree != nil && p.rollupExitTree.Tree != nil && event != nil
 //@   modifies nothing
@@ -106,6 +109,7 @@ package l1infotreesync
 //@   ensures plainErr(result)
 
 //@ func (p *processor) processVerifyBatches (p, tx, blockNumber, event)
+//@   threads tx
 //@   props C11
 //@   requires p != nil && p.rollupExitTree != nil && p.rollupExitTree.Tree != nil && len(p.rollupExitTree.zeroHashes) == 33
 //@   requires rhtOK(rhtHas(p.rollupExitTree.Tree), rhtL(p.rollupExitTree.Tree), rhtR(p.rollupExitTree.Tree))
@@ -121,6 +125,7 @@ package l1infotreesync
 // ---- reorg of the L1 info tree store (C04, C14): one transaction deletes the blocks from the first reorged one on
 // (the event tables follow by ON DELETE CASCADE, assumed A5) and the versions of both trees recorded from that block on
 //@ func (p *processor) Reorg (p, ctx, firstReorgedBlock)
+//@   threads tx
 //@   props C04 C14
 //@   sqltext "DELETE FROM block WHERE num >= $1;"
 //@   requires p != nil && p.db != nil && p.log != nil && p.l1InfoTree != nil && p.l1InfoTree.Tree != nil && p.rollupExitTree != nil && p.rollupExitTree.Tree != nil && p.l1InfoTree.Tree != p.rollupExitTree.Tree
@@ -150,6 +155,7 @@ package l1infotreesync
 //@   ensures (result != nil && isErr(result, sql.ErrNoRows)) ==> l1LastIndex == -1
 //@   ensures (result != nil && !isErr(result, sql.ErrNoRows)) ==> !isErr(result, errvar("db.ErrNotFound"))
 //@ func (p *processor) getLastIndex (p, tx)
+//@   threads tx
 //@   props C11
 //@   sqltext "SELECT position FROM l1info_leaf ORDER BY block_num DESC, block_pos DESC LIMIT 1;"
 //@   requires tx != nil
@@ -163,6 +169,7 @@ package l1infotreesync
 //@   ensures stmtFail == old(stmtFail) + ite(result == nil, 0, 1)
 //@   ensures plainErr(result)
 //@ func processEventInitL1InfoRootMap (tx, blockNumber, event)
+//@   threads tx
 //@   props C07 C11 C14
 //@   modifies stmtFail
 //@   assert call:Insert arg0 == tx && arg1 == "l1info_initial"
@@ -175,6 +182,7 @@ package l1infotreesync
 //@   ensures plainErr(result)
 
 //@ func (p *processor) ProcessBlock (p, ctx, block)
+//@   threads tx
 //@   props C07 C14 C11
 //@   sqltext "INSERT INTO block (num, hash) VALUES ($1, $2)"
 //@   requires p != nil && p.db != nil && p.log != nil && p.l1InfoTree != nil && p.l1InfoTree.Tree != nil && len(p.l1InfoTree.zeroHashes) == 33 && p.rollupExitTree != nil && p.rollupExitTree.Tree != nil && len(p.rollupExitTree.zeroHashes) == 33 && p.l1InfoTree.Tree != p.rollupExitTree.Tree
@@ -228,6 +236,7 @@ package l1infotreesync
 //@   ensures l1LookupNoRows == (result != nil && isErr(result, sql.ErrNoRows))
 //@   ensures result == nil ==> cast(dst, *L1InfoTreeLeaf).L1InfoTreeIndex == caller.index
 //@ func (p *processor) getInfoByIndexWithTx (p, tx, index)
+//@   threads tx
 //@   props C09 C11 C12
 //@   sqltext "SELECT * FROM l1info_leaf WHERE position = $1;"
 //@   modifies l1LookupNoRows
